@@ -220,6 +220,14 @@ def cfg_text(spec="Spec", constants=None, invariants=(), properties=(), extra=()
     return "\n".join(out) + "\n"
 
 
+def jtmp(ctx):
+    """TLC unpacks its standard modules into java.io.tmpdir on every start: keep that inside the check's work
+    directory (removed at the end) instead of littering /tmp."""
+    d = os.path.join(ctx.work, "jtmp")
+    os.makedirs(d, exist_ok=True)
+    return d
+
+
 def tlc_mc(ctx, module, cfg, workers=8, timeout=3600, simulate=None, capture_replay=False, deadlock_ok=False, extra_args=()):
     """Run TLC on spec/<module>.tla with the given cfg text.  Returns dict with
     states, distinct, violated (invariant name or None), out (path), replay (path or None)."""
@@ -237,7 +245,7 @@ def tlc_mc(ctx, module, cfg, workers=8, timeout=3600, simulate=None, capture_rep
     with open(outp, "w") as f:
         try:
             r = subprocess.run(cmd, cwd=SPEC, stdout=f, stderr=subprocess.STDOUT, timeout=timeout,
-                               env=dict(os.environ, JAVA_TOOL_OPTIONS="-Xss512m"))
+                               env=dict(os.environ, JAVA_TOOL_OPTIONS="-Xss512m -Djava.io.tmpdir=" + jtmp(ctx)))
             rc = r.returncode
             timed_out = False
         except subprocess.TimeoutExpired:
@@ -304,7 +312,7 @@ def tlc_trace(ctx, module, trace_path, invariants, timeout=1800, constants=None)
     md = ctx.fresh("md", "d")
     cmd = ["tlc", "-workers", "1", "-metadir", md, "-cleanup", "-noGenerateSpecTE", "-config", cfgp,
            os.path.join(SPEC, module + ".tla")]
-    env = dict(os.environ, JAVA_TOOL_OPTIONS=JAVA_TRACE_OPTS + " -Xmx6g", TRACE=trace_path)
+    env = dict(os.environ, JAVA_TOOL_OPTIONS=JAVA_TRACE_OPTS + " -Xmx6g -Djava.io.tmpdir=" + jtmp(ctx), TRACE=trace_path)
     with open(outp, "w") as f:
         try:
             subprocess.run(cmd, cwd=SPEC, stdout=f, stderr=subprocess.STDOUT, timeout=timeout, env=env)
